@@ -409,65 +409,8 @@ def r3(ctx):
     repo = ctx.repo
     f = ctx.fn(repo.func(MSG + ".Request.parse_request_line"))
     g = f.cfg
-    # 3-part split
-    p, hits = guard_check(f, [g.exit], _len_recog(f, [1, 2, 4], [3]))
-    ctx.check("C01.R3", p is None, key(f, "three-parts"), site(f), "parse_request_line can return normally without the request line having exactly three parts",
-              "3-part check dominates normal exit", path=p and g.fmt_path(p))
-    # method token
-    p, hits = guard_check(f, [g.exit], token_recog(repo, f, "method"))
-    ctx.check("C01.R3", p is None, key(f, "method-token"), site(f), "parse_request_line can return normally without the method having matched the token grammar (fullmatch)",
-              "TOKEN fullmatch dominates normal exit", path=p and g.fmt_path(p))
-    # empty target
-
-    def empty_recog(e):
-        if isinstance(e, (ast.Attribute, ast.Name)) and tail(e) == "uri":
-            return -1
-        r = _len_recog(f, [0], [1, 9], mention="uri")(e)
-        if r is not None:
-            return r
-        c = compare(e)
-        if c and tail(c[0]) == "uri" and const(c[2], NO) == "":
-            return +1 if c[1] is ast.Eq else (-1 if c[1] is ast.NotEq else None)
-        return None
-    p, hits = guard_check(f, [g.exit], empty_recog)
-    ctx.check("C01.R3", p is None, key(f, "non-empty-target"), site(f), "an empty request-target is not rejected", "empty target rejected", path=p and g.fmt_path(p))
-    # version grammar: VERSION_RE.fullmatch
-    vnames = {}
-    for n in g.stmts(ast.Assign):
-        rt = regex_test(repo, f, n.ast.value)
-        if rt and isinstance(n.ast.targets[0], ast.Name):
-            vnames[n.ast.targets[0].id] = rt
-
-    def ver_recog(e):
-        c = compare(e)
-        if c and isinstance(c[0], ast.Name) and c[0].id in vnames and isinstance(c[2], ast.Constant) and c[2].value is None:
-            rx, q, meth, arg = vnames[c[0].id]
-            if meth == "fullmatch" and _is_version_shape(rx):
-                return +1 if c[1] in (ast.Is, ast.Eq) else -1
-        if isinstance(e, ast.Name) and e.id in vnames and vnames[e.id][2] == "fullmatch" and _is_version_shape(vnames[e.id][0]):
-            return -1
-        rt = regex_test(repo, f, e)
-        if rt and rt[2] == "fullmatch" and _is_version_shape(rt[0]):
-            return -1
-        return None
-    p, hits = guard_check(f, [g.exit], ver_recog)
-    ctx.check("C01.R3", p is None, key(f, "version-grammar"), site(f), "the HTTP-version is not validated with HTTP/DIGIT.DIGIT fullmatch before normal exit",
-              "VERSION fullmatch dominates normal exit", path=p and g.fmt_path(p))
-    # version range table
-    vstores = [n for n in g.stmts(ast.Assign) if any(tail(t) == "version" for t in n.ast.targets)]
-    ctx.need(vstores, "C01.R3: no store to self.version in parse_request_line")
-    vkey = Explorer(f).key_of(vstores[0].ast.targets[0])
-    rows = []
-    for ver in [(0, 9), (1, 0), (1, 1), (1, 9), (2, 0), (3, 0)]:
-        for permit in (False, True):
-            ex = Explorer(f, atom_of=lambda e: "permit" if cfg_attr(e) == "permit_unconventional_http_version" else None, frozen=[vkey])
-            outs = ex.run(vstores[0], {vkey: ver, "permit": permit})
-            got = set("reject" if o.kind == "raise" else "accept" for o in outs)
-            want = "accept" if ((1, 0) <= ver < (2, 0) or permit) else "reject"
-            rows.append({"version": list(ver), "permit_unconventional_http_version": permit, "outcome": sorted(got), "required": want})
-            ctx.check("C01.R3", got == {want}, key(f, "version-range|%s|%s" % (ver, permit)), site(f, text="version %s permit=%s" % (ver, permit)),
-                      "version %s with permit_unconventional_http_version=%s gives %s, required %s" % (ver, permit, sorted(got), want), want)
-    ctx.table("C01.R3 version range", rows)
+    # request line: evaluated for every byte value inside method / target / version and a list of hand-picked lines
+    request_line_table(ctx, "C01.R3")
 
     # ---- chunk size
     f2 = ctx.fn(repo.func(BODY + ".ChunkedReader.parse_chunk_size"))
@@ -568,6 +511,85 @@ def hex_recog(repo, func, name):
 
 def rx_pattern(rx):
     return rx.pattern
+
+
+def request_line_table(ctx, rid, configs=((False, False, False),), fields=False, enumerate_bytes=True):
+    """evaluated: Request.parse_request_line on request lines -- every byte value inside the method, the target and the
+    version, plus hand-picked lines -- under the parser switches: rejected, or accepted with exactly (method, target,
+    version, path, query) as RFC 9112 3 reads the line"""
+    import re as _re
+    repo = ctx.repo
+    f = ctx.fn(repo.func(MSG + ".Request.parse_request_line"))
+    g = f.cfg
+    LINE = f.params[1]
+    tracked = ["self.method", "self.uri", "self.version", "self.path", "self.query", "self.fragment"]
+    K_PM, K_CF, K_PV = "self.cfg.permit_unconventional_http_method", "self.cfg.casefold_http_method", "self.cfg.permit_unconventional_http_version"
+
+    def want_of(line, pm, cf, pv):
+        s_ = line.decode("latin-1")
+        parts = s_.split(" ")
+        if len(parts) != 3:
+            return "reject"
+        method, target, version = parts
+        if not method or any(ord(c) not in spec.TCHAR for c in method):
+            return "reject"
+        if not pm and (any(c.islower() and c.isascii() or c == "#" for c in method) or not 3 <= len(method) <= 20):
+            return "reject"
+        if cf:
+            method = method.upper()
+        if not target or any(ord(c) <= 0x20 or ord(c) == 0x7f for c in target):
+            return "reject"
+        m = _re.fullmatch(r"HTTP/([0-9])\.([0-9])", version)
+        if not m:
+            return "reject"
+        v = (int(m.group(1)), int(m.group(2)))
+        if not ((1, 0) <= v < (2, 0)) and not pv:
+            return "reject"
+        return (method, target, v)
+    lines = [b"GET / HTTP/1.1", b"GET /a?b=1#f HTTP/1.0", b"POST /x HTTP/1.9", b"OPTIONS * HTTP/1.1", b"CONNECT h:443 HTTP/1.1", b"GET http://h/p?q HTTP/1.1",
+             b"get / HTTP/1.1", b"Get / HTTP/1.1", b"G#T / HTTP/1.1", b"GO / HTTP/1.1", b"A" * 20 + b" / HTTP/1.1", b"A" * 21 + b" / HTTP/1.1", b" / HTTP/1.1", b"GET", b"GET /", b"",
+             b"GET  HTTP/1.1", b"GET / HTTP/1.1 ", b"GET /a b HTTP/1.1", b"GET  / HTTP/1.1", b" GET / HTTP/1.1", b"GET\t/ HTTP/1.1", b"GET /\tHTTP/1.1",
+             b"GET / HTTP/0.9", b"GET / HTTP/2.0", b"GET / HTTP/3.0", b"GET / HTTP/1.10", b"GET / HTTP/11.1", b"GET / http/1.1", b"GET / HTTP/1.1x", b"GET / xHTTP/1.1", b"GET / HTTP/1,1",
+             b"GET / HTTP/1.\xb9", b"GET / HTTP/\xb2.0", b"GET / HTTP/1.", b"GET / HTTP/.1", b"GET / HTTP/1", b"GET / HTTP/+1.1", b"GET / HTTP/1.1\r", b"GET /\r HTTP/1.1"]
+    for b_ in (range(256) if enumerate_bytes else ()):
+        c = bytes([b_])
+        lines += [b"G" + c + b"T / HTTP/1.1", b"GET /a" + c + b"b HTTP/1.1", b"GET / HTTP/1." + c, b"GET / HTTP/" + c + b".1"]
+    rows = []
+    seen = set()
+    for pm, cf, pv in configs:
+        for line in lines:
+            if (line, pm, cf, pv) in seen:
+                continue
+            seen.add((line, pm, cf, pv))
+            outs = Explorer(f, tracked=tracked).run(g.entry, {LINE: line, K_PM: pm, K_CF: cf, K_PV: pv})
+            got = set()
+            paths = set()
+            for o in outs:
+                if o.kind == "raise":
+                    got.add("reject")
+                elif o.kind == "return":
+                    got.add((o.env.get("self.method"), o.env.get("self.uri"), o.env.get("self.version")))
+                    paths.add((o.env.get("self.path"), o.env.get("self.query")))
+                else:
+                    got.add(o.kind)
+            want = want_of(line, pm, cf, pv)
+            okrow = got == {want}
+            if okrow and want != "reject" and fields:
+                tgt = want[1]
+                if tgt.startswith("/") and not tgt.startswith("//") and all(0x21 <= ord(ch) < 0x7f for ch in tgt):
+                    # origin-form: path up to '?' or '#', query between '?' and '#'
+                    pth = tgt.split("#", 1)[0].split("?", 1)[0]
+                    qry = tgt.split("#", 1)[0].split("?", 1)[1] if "?" in tgt.split("#", 1)[0] else ""
+                    okrow = paths == {(pth, qry)}
+                    if not okrow:
+                        got = set(("path/query", p_) for p_ in paths)
+                        want = ("path/query", (pth, qry))
+            if len(rows) < 30 or not okrow:
+                rows.append({"line": repr(line[:60]), "switches": [pm, cf, pv], "outcome": sorted(map(str, got)), "required": str(want)})
+            ctx.check(rid, okrow, key(f, "request-line|%r|%s%s%s" % (line[:50], int(pm), int(cf), int(pv))), site(f, text="request line %r (permit_method=%s casefold=%s permit_version=%s)" % (line[:60], pm, cf, pv)),
+                      "request line %r gives %s, required %s (method = token, conventional unless permitted; single SP separators; target non-empty without CTL/SP; HTTP/DIGIT.DIGIT in [1.0, 2.0) unless permitted)" % (
+                          line[:60], sorted(map(str, got)), want), "-> %s" % (want,))
+    ctx.table(rid + " request lines (sample)", rows[:60])
 
 
 def chunk_size_ok(repo):
@@ -871,32 +893,8 @@ def r6(ctx):
         ctx.check("C01.R6", p is None, key(f, norm(c)), site(f, c),
                   "whitespace between field name and colon is stripped without cfg.strip_header_spaces (RFC 9112 5.1 requires rejection)",
                   "only under strip_header_spaces", path=p and g.fmt_path(p))
-    f = repo.func(MSG + ".Request.parse_request_line")
-    g = f.cfg
-    # casefold only under casefold_http_method
-    for c in method_calls(f, ("upper", "lower", "casefold")):
-        if tail(c.func.value) == "method":
-            p, hits = guard_check(f, nodes_with(f, c), flag("casefold_http_method"))
-            ctx.check("C01.R6", p is None, key(f, norm(c)), site(f, c), "the method is case-folded without cfg.casefold_http_method",
-                      "only under casefold_http_method", path=p and g.fmt_path(p))
-    # conventional-method restriction can be skipped only by permit_unconventional_http_method
-    permit_edges = [(t, "true") for t in g.tests() if cfg_attr(t.ast) == "permit_unconventional_http_method"]
-    ctx.need(permit_edges, "C01.R6: permit_unconventional_http_method test not found in parse_request_line")
-
-    def badchar_recog(e):
-        rt = regex_test(repo, f, e)
-        if rt and rt[2] == "search" and tail(rt[3]) == "method":
-            try:
-                cs, lo, hi = regexset.single_class(rt[0].pattern, rt[0].flags)
-            except AnalysisError:
-                return None
-            if frozenset(range(ord("a"), ord("z") + 1)) <= cs:
-                return +1
-        return None
-    p, hits = guard_check(f, [g.exit], badchar_recog, extra_cut=permit_edges)
-    ctx.check("C01.R6", p is None, key(f, "method-convention"), site(f),
-              "the lowercase/'#' method restriction can be bypassed without cfg.permit_unconventional_http_method",
-              "method restriction skipped only under the switch", path=p and g.fmt_path(p))
+    # the request-line relaxations (unconventional method / version, case folding) only under their switches: evaluated
+    request_line_table(ctx, "C01.R6", configs=((True, False, False), (False, True, False), (False, False, True), (True, True, True)), enumerate_bytes=False)
 
 
 def _is_name_half(f, name):
